@@ -42,6 +42,12 @@ CHECKS.update({
    text='z3 proves on every path: partial_cmp of every dual/dual, dual/float and float/dual impl is the ordering of the values whatever the derivative data; abs negates value and every first/second derivative exactly when the value is negative; every % impl (all owned/borrowed/float-left/right variants) returns a - trunc(a/b) b in value and per-name derivatives for divisors of either sign; Sum over 0..3/0..4 terms equals the per-name sum; zero()/one() are neutral for + and * by name; is_zero <=> value and all derivatives zero.',
    note='Decided over the reals: NaN => None is outside the claim. <=2/<=3 names per operand.'),
 })
+CHECKS.update({
+ 'C07': dict(engine='tables', technique='SMT (z3) decision, per calendar year with a symbolic day, that the holiday table obtained by symbolically executing get_calendar_by_name from the current MIR equals the published rules translated from the <name>_script.py files (independent civil arithmetic and Gregorian computus); fixings files likewise; witnesses replayed natively',
+   category='model_checking', design_ref='DESIGN.md §2.3, §3.7',
+   text='Complete over the finite domain: for every built-in calendar and every day 1970-01-01..2200-12-31 z3 decides table(d) <=> rules(d) on weekdays (both directions for tgt nyc fed ldn stk osl zur; rule => table for every translatable rule of tro tyo syd wlg mum), fed = nyc minus Good Friday, all/bus empty, week masks, every documented name resolves, and business day <=> publication date over each of the nine fixing histories. The table and week mask are not read from the data files but produced by executing the real constructor (name wiring, date parsing, any post-processing) in mirsym, so a stale map entry, a filter or a changed line all show up.',
+   note='Trusted: transcription of pandas Holiday semantics in tables/rules.py; computus. Custom observance functions (tyo equinoxes, wlg Matariki) are outside the one-directional check. Finding fixed: fed wired to nyc (known_findings.json).'),
+})
 NA_REASON = 'no registered check in this revision yet (work in progress; planned solver-based check described in DESIGN.md §3) — not claimed'
 
 checks = []
